@@ -23,6 +23,9 @@ static std::string other_process(const std::string &path, const char *mode) {
     pid_t pid = fork();
     if (pid == 0) {
         dup2(fd[1], 1); close(fd[0]); close(fd[1]);
+        // the other process lives in another environment than the writer: other time zone, other locale variables, other cwd
+        setenv("TZ", "JST-9", 1); setenv("LC_ALL", "de_DE.UTF-8", 1); setenv("LANG", "de_DE.UTF-8", 1);
+        if (chdir("/") != 0) _exit(126);
         execl(obsdump_path.c_str(), "obsdump", path.c_str(), mode, (char *)nullptr);
         _exit(127);
     }
@@ -55,6 +58,7 @@ static std::string op_class(const std::string &name) { return name; }
 
 int main(int argc, char **argv) {
     vf::init(argc, argv, "C02");
+    setenv("TZ", "EST5EDT", 1); tzset();      // the writing process is not in UTC (POSIX TZ strings need no zone database)
     const bool thorough = vf::opt.tier == "thorough";
     std::string self = argv[0];
     obsdump_path = self.substr(0, self.rfind('/') + 1) + "obsdump";
@@ -120,6 +124,28 @@ int main(int argc, char **argv) {
             else { cmp(E.canon(se.file), "reopen ReadWrite"); se.close(); }
             uint64_t k = E.key_of(post, false);
             if (exec_checked.insert(k).second) {
+                // the same file reached under other spellings of its path: a symbolic link, a hard link, redundant path components
+                std::string dir = se.path.substr(0, se.path.rfind('/')), base = se.path.substr(se.path.rfind('/') + 1);
+                std::string dbase = dir.substr(dir.rfind('/') + 1);
+                std::string sym = se.path + ".sym", hard = se.path + ".hard";
+                unlink(sym.c_str()); unlink(hard.c_str());
+                std::vector<std::pair<std::string, std::string>> aliases;
+                if (symlink(se.path.c_str(), sym.c_str()) == 0) aliases.push_back({"symbolic link", sym});
+                if (link(se.path.c_str(), hard.c_str()) == 0) aliases.push_back({"hard link", hard});
+                aliases.push_back({"path with ./ and ../ components", dir + "/./../" + dbase + "/" + base});
+                std::string real = se.path;
+                for (auto &al : aliases) for (FileMode m : {FileMode::ReadOnly, FileMode::ReadWrite}) {
+                    const char *mn = m == FileMode::ReadOnly ? "ReadOnly" : "ReadWrite";
+                    se.path = al.second;
+                    std::string e = vf::guarded([&] { se.open(m); });
+                    if (!e.empty()) vf::violation("C02|" + op_class(opname) + "|reopen " + mn + " through a " + al.first + "|open fails", e + " history " + ex::hist_str(E.alpha, p, op), "REPLAY " + rargs);
+                    else { cmp(E.canon(se.file), (std::string("reopen ") + mn + " through a " + al.first).c_str()); se.close(); }
+                    se.path = real;
+                }
+                unlink(sym.c_str()); unlink(hard.c_str());
+                vf::guarded([&] { se.open(FileMode::ReadOnly); });
+                if (se.file) { cmp(E.canon(se.file), "reopen ReadOnly under the original path after reopening through its aliases"); se.close(); }
+                vf::count("path_alias_observations");
                 cmp(other_process(se.path, "RO"), "other process ReadOnly");
                 if (thorough || vf::opt.verbose) cmp(other_process(se.path, "RW"), "other process ReadWrite");
                 vf::count("other_process_observations");
